@@ -204,13 +204,13 @@ class Simplifier(walkers.dag.DagWalker):
                             variable, value = value, variable
                         value_free_vars = (
                             self.environment.free_vars_oracle.get_free_variables(
-                                args[0]
+                                value
                             )
                         )
                         if (
                             variable.is_variable_exp()
                             and variable.variable() in vars
-                            and variable not in value_free_vars
+                            and variable.variable() not in value_free_vars
                         ):
                             check_equality_simplification = True
                             new_arg = self.manager.And(
